@@ -94,7 +94,12 @@ def shadow_population(rep, rule, c, SH, access):
     L = loops[0]
     reg, lo, hi = ('item', L, (0,)), ('item', L, (2, 0)), ('item', L, (2, 1))
     want_arg = c.norm(ir.parse("range(lo, hi)", {"lo": lo, "hi": hi}))
-    rep.check(len(e[2]) == 1 and c.norm(e[2][0]) == want_arg, rule, site,
+    got_arg = c.norm(e[2][0]) if len(e[2]) == 1 else None
+    # range(*bounds) with bounds the (start, end) pair of the same tuple
+    if got_arg is not None and got_arg[0] == 'call' and got_arg[1] == ('name', 'range') and \
+            [a_ for a_ in got_arg[2] if a_ != ('const', 0)] == [('star', ('item', L, (2,)))]:
+        got_arg = want_arg
+    rep.check(got_arg == want_arg, rule, site,
               f"{access} shadow is populated with the register's own address range",
               f"add({', '.join(ir.show(a) for a in e[2])}); expected range(start, end) of the same resources() tuple")
     want_cond = [(c.norm(ir.parse(f"reg.element.access.{access}()", {"reg": reg})), True)]
